@@ -166,10 +166,76 @@ fn build(tier: Tier) -> Vec<Scenario> {
             }
         }
     }
+    // a source that never ends by itself: the failure must still bring the whole job down (the
+    // workers upstream of the failed replica unwind when their sends fail; one that keeps
+    // feeding the surviving replicas for ever is a job that never terminates)
+    // (single host only: on several hosts the upstream host of an endless source is brought down
+    // by the death of the failed host's process - its sockets close -, which the harness, whose
+    // hosts are tasks of one process, does not model; the statement itself only speaks of the
+    // hosts that run the failed replica or something downstream of it)
+    for cfg in cfgs.iter().filter(|c| c.layout.hosts() == 1) {
+        for (r, k) in [(0u64, 1usize), (1, 2), (0, 3)] {
+            out.push(endless_scenario(cfg.clone(), r, k, if tier == Tier::Quick { 0 } else { 1 }));
+        }
+    }
     if tier == Tier::Quick {
         deepen(&mut out, &|n| n.contains("PanicAt(1, 2)") && n.contains("local2-fixed2") && (n.contains("chain-second-block") || n.contains("join-left-input") || n.contains("groupby-fold-upstream")));
     }
     out
+}
+
+fn endless_scenario(cfg: JobCfg, replica: u64, k: usize, bound: usize) -> Scenario {
+    use renoir::prelude::*;
+    let name = format!("C20/endless-source/PanicAt({replica}, {k})/{}", cfg.name());
+    let descr = format!("stream_iter(0..) -> shuffle -> map with an injected panic at the {k}-th element of replica {replica} -> for_each, config {}", cfg.name());
+    let cfg2 = cfg.clone();
+    let body: crate::rt::Body = Arc::new(move || {
+        let batch = cfg2.batch;
+        let res = crate::kit::run_hosts(
+            &cfg2.layout,
+            Arc::new(move |_host, env| {
+                let s = env.stream_iter(0i64..).batch_mode(batch).shuffle().map(|x| x + 1);
+                crate::kit::panic_at(s, replica, k).for_each(|_| {});
+                env.execute_blocking();
+            }),
+        );
+        for (h, r) in res.into_iter().enumerate() {
+            if let Some(p) = r {
+                crate::rt::log(Ev::Text("host-panic", format!("{h}: {p}")));
+            }
+        }
+    });
+    let d2 = descr.clone();
+    let check: Check = Arc::new(move |r| {
+        let fired = r.log.iter().any(|e| matches!(e, Ev::Note("fault-fired", _)));
+        match &r.status {
+            Status::Done => {}
+            Status::Deadlock(b) => return Err(Fail::new("c20-workers-left-blocked", format!("{d2}: after the injected panic some workers never unwind: {b}"))),
+            other => return Err(Fail::new("c20-abnormal", format!("{d2}: {:?}", other))),
+        }
+        if !fired {
+            return Err(Fail::new("c20-endless-ended", format!("{d2}: the job ended although the fault never fired")));
+        }
+        if !r.log.iter().any(|e| matches!(e, Ev::Text("host-panic", _))) {
+            return Err(Fail::new("c20-failure-masked", format!("{d2}: a user function panicked but execute_blocking returned normally on every host")));
+        }
+        Ok(hash_of(&1u8))
+    });
+    Scenario {
+        name,
+        descr,
+        params: env_params(&cfg),
+        body,
+        check,
+        bound,
+        orders: ORDERS3[..1].to_vec(),
+        max_execs: 0,
+        shards: 1,
+        nontrivial: true,
+        unbounded: false,
+        loop_body: false,
+        sometimes: vec![],
+    }
 }
 
 /// (job graph edges, (block, host) of every replica) of the program in this configuration.
@@ -189,7 +255,7 @@ pub fn spec() -> PropSpec {
     PropSpec {
         id: "C20",
         build,
-        rule: "crash-point enumeration: acyclic jobs (chain, shuffle, group_by+fold, two-phase fold, diamond, inner and outer join, two sinks) x position of the faulty operator (first block, later block, right before the sink, upstream/downstream of the aggregation, one join input, one branch) x replica 0/1 x k-th element (1..3) x parallelism / batch mode / capacity (thorough: adaptive batching and a 1+1 remote layout) x every schedule within the deviation bound: if the injected panic fired, execute_blocking must fail (on every host), no sink downstream of the failed replica may publish anything, any other sink only its complete result, and every remaining task must finish (a worker left blocked is a detected deadlock); if it did not fire the job must give its normal result; non-trivial = every scenario (6 input elements)",
+        rule: "crash-point enumeration: acyclic jobs (chain, shuffle, group_by+fold, two-phase fold, diamond, inner and outer join, two sinks) x position of the faulty operator (first block, later block, right before the sink, upstream/downstream of the aggregation, one join input, one branch) x replica 0/1 x k-th element (1..3) x parallelism / batch mode / capacity (thorough: adaptive batching and a 1+1 remote layout) x every schedule within the deviation bound: if the injected panic fired, execute_blocking must fail (on every host), no sink downstream of the failed replica may publish anything, any other sink only its complete result, and every remaining task must finish (a worker left blocked is a detected deadlock); if it did not fire the job must give its normal result; half of the injected faults unwind with a payload that is not a string; a job over an endless source (stream_iter(0..)) must be brought down by the fault as well; non-trivial = every scenario (6 input elements)",
         assumptions: &["the fault is a panic in a harness operator placed in the operator chain (stands for a panicking user closure)", "deviation bound as reported"],
         exhaustive_when_uncapped: false,
         budget_s: (55, 1500),
